@@ -73,7 +73,7 @@ fn schemas_mutually_exclusive(a: &Schema, b: &Schema) -> bool {
         (
             other,
             Schema::Object(SchemaObject {
-                metadata: None,
+                metadata: _,
                 instance_type: None,
                 format: None,
                 enum_values: None,
@@ -89,7 +89,7 @@ fn schemas_mutually_exclusive(a: &Schema, b: &Schema) -> bool {
         )
         | (
             Schema::Object(SchemaObject {
-                metadata: None,
+                metadata: _,
                 instance_type: None,
                 format: None,
                 enum_values: None,
